@@ -244,3 +244,26 @@ func dedupStr(in []string) []string {
 	sort.Strings(out)
 	return out
 }
+
+// evalDNF evaluates a condition under env; unknown atoms are collected.
+func evalDNF(d fw.DNF, env fw.Env, unknown map[string]bool) bool {
+	for _, term := range d {
+		ok := true
+		for _, l := range term {
+			v, known := env(l.Atom)
+			if !known {
+				unknown[l.Atom] = true
+				ok = false
+				break
+			}
+			if v != l.Pos {
+				ok = false
+				break
+			}
+		}
+		if ok {
+			return true
+		}
+	}
+	return false
+}
